@@ -66,6 +66,61 @@ def module_state_findings(tree, modname, model=None):
     return out
 
 
+def _stateful(cx, mod, cls):
+    """the methods (other than the constructor) through which instances of the class change: they assign a field of self"""
+    out = []
+    try:
+        chain = cx.model.mro(mod, cls)
+    except ValueError:
+        chain = [(mod, cls)]
+    for m_, c_ in chain:
+        for fn in c_.body:
+            if not isinstance(fn, ast.FunctionDef) or fn.name in ('__init__', '__new__', '__post_init__') or not fn.args.args:
+                continue
+            me = fn.args.args[0].arg
+            for n in ast.walk(fn):
+                tg = n.targets if isinstance(n, ast.Assign) else ([n.target] if isinstance(n, (ast.AugAssign, ast.AnnAssign)) else [])
+                for t in tg:
+                    for x in ast.walk(t):
+                        if isinstance(x, ast.Attribute) and isinstance(x.value, ast.Name) and x.value.id == me and isinstance(x.ctx, ast.Store):
+                            out.append('%s.%s' % (c_.name, fn.name))
+    return sorted(set(out))
+
+
+def check_no_memoised_stateful(cx, rep):
+    """a function whose result is remembered across calls (functools.lru_cache / cache) does not return an object that changes while
+    it is used (a tokenizer, a reader, a source, a worker): two users that are alive at the same time -- two split() generators
+    consumed alternately -- would drive ONE automaton, and each would see what the other left"""
+    CACHES = ('lru_cache', 'cache')
+    n = 0
+    for mod in cx.code_mods():
+        tree = cx.model.mods[mod]['tree']
+        for fn in ast.walk(tree):
+            if not isinstance(fn, (ast.FunctionDef, ast.AsyncFunctionDef)):
+                continue
+            n += 1
+            decos = []
+            for d in fn.decorator_list:
+                d0 = d.func if isinstance(d, ast.Call) else d
+                decos.append(d0.id if isinstance(d0, ast.Name) else (d0.attr if isinstance(d0, ast.Attribute) else ''))
+            if not any(d in CACHES for d in decos):
+                continue
+            for r in ast.walk(fn):
+                if not (isinstance(r, ast.Return) and isinstance(r.value, ast.Call)):
+                    continue
+                f_ = r.value.func
+                nm = f_.id if isinstance(f_, ast.Name) else (f_.attr if isinstance(f_, ast.Attribute) else None)
+                if nm is None:
+                    continue
+                h = cx.model.home(mod, nm)
+                if h is None or not isinstance(h[1], ast.ClassDef):
+                    continue
+                muts = _stateful(cx, h[0], h[1])
+                rep.ob('no memoised function hands out a shared instance of a class whose objects change while they are used', not muts, cx.where(mod, r), '%s:%s:memoised-%s' % (mod, fn.name, nm),
+                       '%s is cached (%s) and returns %s(...), whose state is changed by %s' % (fn.name, [d for d in decos if d in CACHES], nm, muts[:4]))
+    rep.floor('functions scanned for memoised constructors', n, 50)
+
+
 def check(repo, rep):
     cx = Ctx(repo)
     rep.cx = cx
@@ -121,6 +176,8 @@ def check(repo, rep):
     if not {'mutable default argument', 'write to module global', 'write into module-level object'} <= kinds:
         rep.unknown('positive control of the module-state rule did not fire (%s)' % sorted(kinds))
     rep.extra['positive_control_module_state'] = sorted(kinds)
+    # ---------------------------------------------------------------- (c2) no memoised constructor of a stateful object
+    check_no_memoised_stateful(cx, rep)
     # ---------------------------------------------------------------- (d) split() builds fresh objects per call
     sw = SplitWiring(cx)
     for dd in sw.paths:
